@@ -8,7 +8,9 @@ Streams
   est      : qkeras.estimate.extract_model_operations number_of_operations vs `estOps` and the oracle.
   energy   : QTools.pe(...) for placements x min_sram_size x rd_wr_on_io vs the Lean energy model
              evaluated on oracle values of the cost polynomials (taken from the live settings.cfg).
-  extract  : extract_energy_sum / extract_energy_profile vs `extractSum` / `extractProfile` on the
+  extract  : (16 cost settings per report: empty / partial / full class lists, empty / missing default, absent
+             and near-miss class keys; clause oracle `selected_keys` written from the property text)
+             extract_energy_sum / extract_energy_profile vs `extractSum` / `extractProfile` on the
              returned dictionary, and vs an exact-fraction sum of the selected entries.
 """
 import contextlib
@@ -631,18 +633,89 @@ def cost_tables(cfg, sram_mul_factor, sizes, bits, gate, min_sram):
 KEYS = ["inputs", "outputs", "parameters", "op_cost"]
 
 
+def selected_keys(cfg_setting, class_name):
+  """the entries a cost setting selects for a layer class, written from the property text (NOT with the
+  code's `get(class, get("default", []))` expression): the list registered for the class — also when that
+  list is empty, i.e. "count nothing" —, the "default" list only for classes the setting does not
+  mention, nothing when there is no "default" either"""
+  if class_name in cfg_setting:
+    return list(cfg_setting[class_name])
+  if "default" in cfg_setting:
+    return list(cfg_setting["default"])
+  return []
+
+
 def exact_extract(cfg_setting, energy_dict):
-  """clause oracle for extract_energy_sum: exact-fraction sum of the selected entries"""
+  """clause oracle for extract_energy_sum / extract_energy_profile: exact-fraction sum of the selected
+  entries, per layer and in total"""
   tot = F(0)
   prof = {}
   for name, row in energy_dict.items():
     if name == "total_cost":
       continue
-    keys = cfg_setting.get(row["class_name"], cfg_setting.get("default", []))
-    s = sum((F(row["energy"][k]) for k in keys), F(0))
+    s = sum((F(row["energy"][k]) for k in selected_keys(cfg_setting, row["class_name"])), F(0))
     prof[name] = s
     tot += s
   return tot, prof
+
+
+def extract_settings(g2, classes, live):
+  """cost settings (the `cfg_setting` / include_energy dictionaries) aimed at the case split of the key
+  lookup: class listed / not listed, list empty / partial / full, "default" present / empty / missing,
+  keys of classes that do not occur in the model, near-miss class names.  `g2` draws from its own PRNG
+  stream (seeded from VERIF_SEED) so that the model generator's stream is untouched."""
+  def sub(nonempty=False):
+    ks = [k for k in KEYS if g2.p(0.5)]
+    if nonempty and not ks:
+      ks = [g2.ch(KEYS)]
+    g2.rng.shuffle(ks)
+    return [str(k) for k in ks]
+  cls = list(dict.fromkeys(classes))
+  c0 = g2.ch(cls)
+  out = [("live_include_energy", dict(live))]
+  # the library's own setting with one class of the model switched off / the default switched off
+  out.append(("live_class_emptied", dict(live, **{c0: []})))
+  out.append(("live_default_emptied", dict(live, default=[])))
+  out.append(("default_subset", {"default": sub()}))
+  out.append(("no_default", {c0: sub(True)}))
+  out.append(("class_override", {"default": sub(True), g2.ch(cls): [g2.ch(KEYS)], "QActivation": ["outputs"]}))
+  # "count nothing for this class" next to a non-empty default (the falsy-but-legal list)
+  out.append(("empty_class_full_default", {c0: [], "default": list(KEYS)}))
+  out.append(("empty_class_some_default", {g2.ch(cls): [], "default": sub(True)}))
+  # every class of the model switched off: the sum must be 0 whatever the default says
+  out.append(("all_classes_empty", dict({c: [] for c in cls}, default=list(KEYS))))
+  out.append(("empty_default_some_class", {"default": [], c0: sub(True)}))
+  out.append(("empty_setting", {}))
+  out.append(("only_absent_classes", {"NoSuchLayer": list(KEYS), "QNoSuchLayer": sub(True)}))
+  out.append(("absent_classes_and_default", {"NoSuchLayer": list(KEYS), "default": sub()}))
+  # near-miss names: the Q-less / Q-prefixed twin of a class of the model, a prefix, another case; none of
+  # them names the class, so the default applies
+  near = {}
+  for c in cls:
+    twin = c[1:] if c.startswith("Q") else "Q" + c
+    for nm in (twin, c[:-1], c.lower(), c + "2"):
+      if nm not in cls and nm != "default" and g2.p(0.6):
+        near[nm] = sub()
+  near["default"] = sub(True)
+  out.append(("near_miss_names", near))
+  # free mix: every class independently absent / [] / partial / full, default absent / [] / partial
+  for i in range(2):
+    cs = {}
+    for c in cls + ["NoSuchLayer"]:
+      r = g2.ri(0, 3)
+      if r == 1:
+        cs[c] = []
+      elif r == 2:
+        cs[c] = sub(True)
+      elif r == 3:
+        cs[c] = list(KEYS)
+    r = g2.ri(0, 2)
+    if r == 1:
+      cs["default"] = []
+    elif r == 2:
+      cs["default"] = sub(True)
+    out.append(("mix%d" % i, cs))
+  return out
 
 
 # ----------------------------------------------------------------------------- the check
@@ -660,6 +733,7 @@ def run(run: core.Run, tier: str):
   rng = np.random.default_rng(run.seed)
   gv = qtools_util.get_val
   gen = Gen(rng, run, K, Q)
+  g2 = Gen(np.random.default_rng([int(run.seed), 1904]), run, K, Q)   # cost settings: own stream
   n_models = 150 if tier == "quick" else 900
   run.extra["rule"] = (
       "random Keras/QKeras models (legacy tf_keras): Conv2D/QConv2D, Conv1D/QConv1D, (Q)DepthwiseConv2D, "
@@ -669,6 +743,11 @@ def run(run: core.Run, tier: str):
       "channels 1..8, spatial 4..12, groups, depth_multiplier, 7 kernel quantizers x 6 activation "
       "quantizers; every model x 3 of 12 memory placements (weights dram/sram/fixed x activations "
       "dram/sram x rd_wr_on_io x min_sram_size 0/2^k) x live and perturbed cost polynomials; "
+      "extract_energy_sum / extract_energy_profile: every report x 16 cost settings on the first placement "
+      "(4 on the others) aimed at the key lookup: class listed with an EMPTY / partial / full list, "
+      "'default' empty / partial / full / missing, the live include_energy with one class of the model or "
+      "the default emptied, every class of the model emptied, {} , keys of classes absent from the model, "
+      "near-miss class names (Q-less / Q-prefixed twin, prefix, lower case), two free mixes; "
       "non-trivial = distinct (class, geometry) layer or distinct (model, placement)")
   run.assumptions += [
       "Keras compute_output_shape / conv_output_length is trusted Keras code; its result is compared with "
@@ -823,7 +902,7 @@ def run(run: core.Run, tier: str):
     for _ in range(3):
       placements.append((gen.ch(["dram", "sram", "fixed"]), gen.ch(["dram", "sram"]),
                          gen.ch([0, 0, 64, 4096, 2 ** 20, 8 * 16 * 1024 * 1024]), gen.p(0.5)))
-    for (wm, am, ms, rdwr) in placements:
+    for pi_, (wm, am, ms, rdwr) in enumerate(placements):
       err = None
       try:
         with _quiet(), np.errstate(all="ignore"):
@@ -840,20 +919,22 @@ def run(run: core.Run, tier: str):
       if ed is None:
         continue
       # ---------------------------------------------------------- extract_energy_sum / profile
-      settings_list = [("live_include_energy", dict(qsettings.cfg.include_energy))]
-      ks = [k for k in KEYS if gen.p(0.5)]
-      settings_list.append(("default_subset", {"default": ks}))
-      settings_list.append(("no_default", {recs[0][1]["cls"]: ["outputs", "op_cost"]}))
-      settings_list.append(("class_override", {"default": ["inputs", "parameters", "op_cost"],
-                                               recs[-1][1]["cls"]: [gen.ch(KEYS)], "QActivation": ["outputs"]}))
-      for sname, cs in settings_list[: (4 if mi % 3 == 0 else 2)]:
+      ed_layers = [n for n in ed if n != "total_cost"]
+      settings_list = extract_settings(g2, [ed[n]["class_name"] for n in ed_layers], qsettings.cfg.include_energy)
+      if pi_ != 0:
+        # every placement gets the live setting and the falsy-list cases, the first placement everything
+        keep = {"live_include_energy", "live_class_emptied", "empty_class_full_default", "mix0"}
+        settings_list = [t for t in settings_list if t[0] in keep]
+      for sname, cs in settings_list:
         with _quiet():
           s_impl = qt.extract_energy_sum(cs, ed)
           p_impl = qt.extract_energy_profile(cs, ed)
-        rows = [[ed[n]["class_name"], [core.rj(ed[n]["energy"][k]) for k in KEYS]] for n in ed if n != "total_cost"]
+        rows = [[ed[n]["class_name"], [core.rj(ed[n]["energy"][k]) for k in KEYS]] for n in ed_layers]
         extract_lines.append({"op": "extract", "cfg": cs, "rows": rows})
-        extract_meta.append((mname, sname, cs, ed, int(s_impl),
-                             [p_impl[n]["total"] for n in ed if n != "total_cost"]))
+        shape_ok = (list(p_impl.keys()) == ed_layers and
+                    all(p_impl[n].get("energy") == ed[n]["energy"] for n in ed_layers))
+        extract_meta.append((mname, sname, cs, ed, s_impl,
+                             [p_impl[n]["total"] for n in ed_layers] if shape_ok else None))
   if orig_polys is not None:
     for k, v in orig_polys.items():
       setattr(qsettings.cfg, k, v)
@@ -1040,27 +1121,65 @@ def run(run: core.Run, tier: str):
     run.case(("extract", mname, sname, s_impl))
     run.compared += 1
     run.count("extract_" + sname)
+    ed_layers = [n for n in ed if n != "total_cost"]
+    ed_classes = [ed[n]["class_name"] for n in ed_layers]
+    # which branch of the key lookup each layer takes (the case split of `selectKeys` / C19_extract_keys)
+    for c in dict.fromkeys(ed_classes):
+      if c in cs:
+        run.count("extract_lookup_class_" + ("empty" if len(cs[c]) == 0 else
+                                             "full" if len(cs[c]) == len(KEYS) else "partial"))
+      elif "default" in cs:
+        run.count("extract_lookup_default_" + ("empty" if len(cs["default"]) == 0 else
+                                               "full" if len(cs["default"]) == len(KEYS) else "partial"))
+      else:
+        run.count("extract_lookup_nothing")
     raw = core.unrj(o["raw_sum"])
     near = abs(raw - round(raw)) < F(1, 10 ** 6)
     mirrored = True
-    if s_impl == o["sum"]:
+    if type(s_impl) is int and s_impl == o["sum"]:
       pass
-    elif near and abs(s_impl - o["sum"]) <= 1:
+    elif type(s_impl) is int and near and abs(s_impl - o["sum"]) <= 1:
       run.count("extract_band")
     else:
       mirrored = False
       run.disagree("extract_energy_sum", {"setting": cs, "rows": ed}, s_impl, o["sum"])
-    for a, b in zip(p_impl, o["profile"]):
-      if abs(F(a) - core.unrj(b)) > F(1, 10 ** 6) * max(1, abs(core.unrj(b))):
-        mirrored = False
-        run.disagree("extract_energy_profile", {"setting": cs}, a, float(core.unrj(b)))
-    # clause oracle: exact sum of the selected entries, computed here from the dictionary
-    tot, _ = exact_extract(cs, ed)
+    if p_impl is None:
+      mirrored = False
+      run.disagree("extract_energy_profile", {"setting": cs}, "layers / energy rows differ from the report", "same")
+    else:
+      for a, b in zip(p_impl, o["profile"]):
+        if abs(F(a) - core.unrj(b)) > F(1, 10 ** 6) * max(1, abs(core.unrj(b))):
+          mirrored = False
+          run.disagree("extract_energy_profile", {"setting": cs}, a, float(core.unrj(b)))
+    # clause oracle (C19_extract): exact sum of the entries the setting selects, computed here from the
+    # dictionary with `selected_keys` (independent of the model and of the code's lookup expression)
+    tot, prof = exact_extract(cs, ed)
+    branches = sorted({("class_empty" if (c in cs and len(cs[c]) == 0) else "class" if c in cs else
+                        "default" if "default" in cs else "nothing") for c in ed_classes})
     lo = math.floor(tot - F(1, 10 ** 6))
     hi = math.floor(tot + F(1, 10 ** 6))
-    if not (lo <= s_impl <= hi):
+    if type(s_impl) is not int or not (lo <= s_impl <= hi):
       run.violate("extract_sum_is_sum_of_selected", {"stream": "extract", "setting": sname},
-                  {"setting": cs, "extract_energy_sum": s_impl, "exact_sum": float(tot), "rows": ed},
+                  {"setting": cs, "extract_energy_sum": s_impl, "exact_sum": float(tot),
+                   "floor_of_exact_sum": math.floor(tot), "lookup_branches": branches,
+                   "classes": ed_classes, "rows": ed,
+                   "replay": "QTools.extract_energy_sum(setting, rows)"},
+                  mirrored=mirrored)
+    # clause oracle for the profile: same layers, rows untouched, per-layer total = the selected entries
+    bad = None
+    if p_impl is None:
+      bad = {"what": "profile layers / energy rows differ from the report"}
+    else:
+      for n, a in zip(ed_layers, p_impl):
+        if abs(F(a) - prof[n]) > F(1, 10 ** 9) * max(1, abs(prof[n])):
+          bad = {"layer": n, "class_name": ed[n]["class_name"], "profile_total": a,
+                 "selected_keys": selected_keys(cs, ed[n]["class_name"]), "exact_sum": float(prof[n]),
+                 "energy": ed[n]["energy"]}
+          break
+    if bad is not None:
+      run.violate("extract_profile_total_is_sum_of_selected", {"stream": "extract", "setting": sname},
+                  dict(bad, setting=cs, lookup_branches=branches,
+                       replay="QTools.extract_energy_profile(setting, rows)[layer]['total']"),
                   mirrored=mirrored)
   run.extra["streams"] = {"count": len(count_lines), "spec": len(spec_lines), "estimate": len(est_lines),
                           "energy": len(energy_lines), "extract": len(extract_lines)}
